@@ -53,7 +53,9 @@ func runC11(t *testing.T, ch *sim.Choices, tier string) (o Outcome) {
 	stmt := gen.Draw(2) == 1
 	bias := []int{0, 0, 2, 6}[gen.Draw(4)]
 	cfgN := sim.SchedConfig{MaxSteps: 800, QuantumMax: 1, Bias: bias}
-	cfgI := sim.SchedConfig{MaxSteps: 4000, QuantumMax: 1, Bias: bias, ProtoYield: true, StmtYield: stmt}
+	// real identities: protocol-step yields would make the schedule depend on the Go
+	// runtime's recycling of g structs (see C33); statement yields and hook.Y() only
+	cfgI := sim.SchedConfig{MaxSteps: 4000, QuantumMax: 1, Bias: bias, StmtYield: stmt}
 	if stmt {
 		cfgI.QuantumMax = []int{1, 3, 8}[gen.Draw(3)]
 	}
@@ -65,6 +67,7 @@ func runC11(t *testing.T, ch *sim.Choices, tier string) (o Outcome) {
 	itp := runConcurrent(t, ch.Fork(), cfgI, true, spec, "Main()", func(s *sim.Sched, ir *fast.Interp) {
 		mon = &ownMonitor{s: s}
 		mon.install()
+		hs.SkipCreateYield = true
 	})
 	o.Steps, o.SimNanos = itp.Steps, itp.SimNanos+nat.SimNanos
 	o.EventHash = sim.Mix(nat.hashAll(), itp.hashAll())
